@@ -219,8 +219,9 @@ def finish(mod, tier, seed, agg, t0, replaying=False):
         "repo": REPO,
     }
     if not replaying:
-        os.makedirs(os.path.join(VERIF, "evidence"), exist_ok=True)
-        with open(os.path.join(VERIF, "evidence", f"{pid}.json"), "w") as f:
+        evdir = os.environ.get("VERIF_EVIDENCE_DIR") or os.path.join(VERIF, "evidence")
+        os.makedirs(evdir, exist_ok=True)
+        with open(os.path.join(evdir, f"{pid}.json"), "w") as f:
             json.dump(ev, f, indent=1, default=str)
     for l in lines:
         print(l)
